@@ -1,7 +1,7 @@
 (* C01 — property theorems only.  Each is closed by [exact <lemma>] and followed by
    Print Assumptions; non-vacuity Examples at the end. *)
 From V Require Import Common.NumFacts C01.Model C01.Proofs C01.ProofsMulti C01.ProofsMix C01.ProofsOps
-  C01.ProofsTotal C01.ProofsSplit C01.ProofsCopyM.
+  C01.ProofsTotal C01.ProofsSplit C01.ProofsCopyM C01.ProofsAlias.
 
 (* ===== mixing: value =====
    Whatever the receiver (single- or multi-phase), the inlets (any phases, single/multi, the
@@ -178,6 +178,49 @@ Proof.
 Qed.
 Print Assumptions C01_multi_copy_remove_refuted.
 
+(* ===== aliases: several stream objects on one flow data (flow_proxy / link_with, multistream[phase]) =====
+   Mixing through handles: the receiver's flow data ends with the sum of what the inlet handles showed -
+   also when inlets share the receiver's data (its proxy as the only non-empty inlet, its own
+   sub-streams among several inlets) - every handle on that data sees the result (handles only read the
+   cell), every other flow data is untouched.  The hypothesis excludes exactly one case, refuted below. *)
+Theorem C01_alias_mix_value : forall a r ins eb hf a' vst h,
+  views (cells a) (hs a) = Ok vst -> wf_store vst -> nth_error (hs a) r = Some h ->
+  (eb = true -> own_view_only (hs a) vst r ins = false) ->
+  astep a (OMix r ins eb hf) = Ok a' ->
+  exists x, nth_error (cells a') (hcell h) = Some x /\
+    (forall c, tot x c == qsum (map (tot_at vst c) ins)) /\
+    (forall j', j' <> hcell h -> nth_error (cells a') j' = nth_error (cells a) j') /\
+    length (hs a') = length (hs a).
+Proof. exact alias_mix_value. Qed.
+Print Assumptions C01_alias_mix_value.
+(* without that hypothesis the statement is REFUTED by the faithful model: an energy-balanced mix of a
+   MultiStream whose only non-empty inlet is one of its own sub-streams empties it (MaterialIndexer.copy_like
+   starts with self.empty(), which wipes the source row before it is read) *)
+Definition C01_alias_mix_value_statement : Prop :=
+  forall a r ins eb hf a' vst h,
+  views (cells a) (hs a) = Ok vst -> wf_store vst -> nth_error (hs a) r = Some h ->
+  astep a (OMix r ins eb hf) = Ok a' ->
+  exists x, nth_error (cells a') (hcell h) = Some x /\ forall c, tot x c == qsum (map (tot_at vst c) ins).
+Definition aW : astore := mka [MS (mkm wP [Pg; Pl] [[1; 0; 0]; [0; 2; 4]])] [HCell 0; HView 0 Pl].
+Definition aW_views : store := match views (cells aW) (hs aW) with Ok v => v | Err _ => [] end.
+Definition aW' : astore := match astep aW (OMix 0 [1]%nat true 0) with Ok x => x | Err _ => aW end.
+Lemma aW_views_wf : wf_store aW_views.
+Proof.
+  split.
+  - intros s [H|[H|[]]]; subst; unfold wf_stream, wf_pkg; simpl;
+      (split; [repeat constructor; simpl; intuition lia|]);
+      (split; [intros r0 R; repeat (destruct R as [R|R]; [subst; reflexivity|]); destruct R|]);
+      (split; [reflexivity | repeat split; repeat constructor; simpl; lia]).
+  - intros x y [A|[A|[]]] [B|[B|[]]]; subst; unfold coherent; simpl; intros E; reflexivity.
+Qed.
+Theorem C01_alias_mix_value_refuted : ~ C01_alias_mix_value_statement.
+Proof.
+  intros H.
+  destruct (H aW 0%nat [1]%nat true 0%nat aW' aW_views (HCell 0) eq_refl aW_views_wf eq_refl eq_refl) as [x [N V]].
+  vm_compute in N. inversion N; subst x. specialize (V 0%nat). vm_compute in V. discriminate.
+Qed.
+Print Assumptions C01_alias_mix_value_refuted.
+
 (* ===== scaling ===== *)
 Theorem C01_scale_value : forall k s c, tot (scale k s) c == k * tot s c.
 Proof. exact scale_value_lemma. Qed.
@@ -249,6 +292,29 @@ Example C01_nonvacuous_multi_copy_remove : exists st1 st2,
   nth_error st1 1 = nth_error exStore 1 /\
   step (exStore ++ [MS (mkm exP1 [Pg; Ps] [[1; 1; 1]; [2; 0; 2]])]) (OCopyFlowM 2 3 PhAll (IdOne 0) true false) = Ok st2.
 Proof. eexists; eexists. split; [|split]; vm_compute; reflexivity. Qed.
+(* aliases: (1) the receiver's flow proxy (own phase) with an empty stream as the inlets of an energy-balanced
+   mix: the material stays, the receiver takes the proxy's phase; (2) sub-streams handed out before a mix that
+   adds a phase keep showing the MultiStream's rows *)
+Definition exA : astore :=
+  mka [SS (mkc exP1 Pl [1; 2; 0]); SS (mkc exP1 Pg [0; 0; 0]); MS (mkm exP1 [Pg; Pl] [[1; 0; 0]; [0; 2; 4]]);
+       SS (mkc exP1 Ps [0; 1; 1])]
+      [HCell 0; HCell 1; HCell 2; HCell 3; HProxy 0 Pg; HView 2 Pl].
+Example C01_nonvacuous_alias :
+  match astep exA (OMix 0 [4; 1]%nat true 0) with
+  | Ok a1 => match views (cells a1) (hs a1) with
+             | Ok v => store_eqb v [SS (mkc exP1 Pg [1; 2; 0]); SS (mkc exP1 Pg [0; 0; 0]);
+                                    MS (mkm exP1 [Pg; Pl] [[1; 0; 0]; [0; 2; 4]]); SS (mkc exP1 Ps [0; 1; 1]);
+                                    SS (mkc exP1 Pg [1; 2; 0]); SS (mkc exP1 Pl [0; 2; 4])]
+             | Err _ => false end
+  | Err _ => false end = true /\
+  match astep exA (OMix 2 [3; 5; 0]%nat false 0) with
+  | Ok a1 => match views (cells a1) (hs a1) with
+             | Ok v => store_eqb v [SS (mkc exP1 Pl [1; 2; 0]); SS (mkc exP1 Pg [0; 0; 0]);
+                                    MS (mkm exP1 [Pg; Pl; Ps] [[0; 0; 0]; [1; 4; 4]; [0; 1; 1]]); SS (mkc exP1 Ps [0; 1; 1]);
+                                    SS (mkc exP1 Pg [1; 2; 0]); SS (mkc exP1 Pl [1; 4; 4])]
+             | Err _ => false end
+  | Err _ => false end = true.
+Proof. split; vm_compute; reflexivity. Qed.
 Example C01_nonvacuous_split :
   match split_to (MS (mkm exP1 [Pg; Pl] [[0; 1; 0]; [8; 0; 3]])) (SS (mkc exP0 Pl [1; 2; 0; 0]))
           (SS (mkc exP1 Ps [0; 0; 0])) (SpV [1 # 2; 1 # 4; 1]) true with
